@@ -562,19 +562,56 @@ func r08d(c *core.Ctx) {
 	}
 	// arms of SubtractTTL: TTL - delta under TTL > delta, else 1
 	armSub, armOne := false, false
+	armBad := ""
 	core.EachInstr(sub, func(b *ssa.BasicBlock, _ int, in ssa.Instruction) {
 		st, ok := in.(*ssa.Store)
 		if !ok || !core.IsFieldAddr(st.Addr, "ResourceHdr", "TTL") {
 			return
 		}
-		e := core.Expr(st.Val)
-		if strings.HasSuffix(e, ".TTL - delta)") && hasCond(b, ".TTL > delta)", true) {
-			armSub = true
+		// every way the stored value can arise (the arms may be merged by a phi, e.g. when the clamp is computed by a
+		// helper): TTL-delta where TTL > delta holds, the constant 1 where it does not
+		type leaf struct {
+			v   ssa.Value
+			blk *ssa.BasicBlock
 		}
-		if k, ok := core.ConstInt(st.Val); ok && k == 1 && hasCond(b, ".TTL > delta)", false) {
-			armOne = true
+		var leaves []leaf
+		seen := map[*ssa.Phi]bool{}
+		var collect func(v ssa.Value, blk *ssa.BasicBlock)
+		collect = func(v ssa.Value, blk *ssa.BasicBlock) {
+			v = core.Unspill(v)
+			if p, ok := v.(*ssa.Phi); ok {
+				if seen[p] {
+					return
+				}
+				seen[p] = true
+				for i, e := range p.Edges {
+					collect(e, p.Block().Preds[i])
+				}
+				return
+			}
+			leaves = append(leaves, leaf{v, blk})
+		}
+		collect(st.Val, b)
+		for _, lf := range leaves {
+			if k, ok := core.ConstInt(lf.v); ok {
+				if k == 1 && hasCond(lf.blk, ".TTL > delta)", false) {
+					armOne = true
+				} else {
+					armBad = fmt.Sprintf("constant %d stored", k)
+				}
+				continue
+			}
+			e := core.Expr(lf.v)
+			if strings.HasSuffix(e, ".TTL - delta)") && hasCond(lf.blk, ".TTL > delta)", true) {
+				armSub = true
+				continue
+			}
+			armBad = "stores " + e + " under " + condList(lf.blk)
 		}
 	})
+	if armBad != "" {
+		armSub = false
+	}
 	c.Check(armSub && armOne, "subtract-arms", sub.Pos(), sub, "SubtractTTL stores TTL-delta when TTL > delta and 1 otherwise (never 0, never wraps)", fmt.Sprintf("sub=%v one=%v", armSub, armOne))
 	// GetMinimalTTL returns the running minimum
 	minOK := false
